@@ -63,7 +63,9 @@
 (*             warm start (of the input couplings the code warm-starts).   *)
 (* The normed residual is compared SQUARED (BigNat), for the scalings      *)
 (* no_scaling, initial_residual_norm, n_coupling_variables,                *)
-(* initial_subresidual_norm, initial_residual_component; at exact          *)
+(* initial_subresidual_norm, initial_residual_component (a sub-residual /  *)
+(* component of the FIRST residual that is exactly zero keeps the scale 1: *)
+(* it stays monitored, unscaled - RefSq); at exact                         *)
 (* equality of two non-zero sides both Stop and Continue are allowed (a    *)
 (* double cannot be trusted to decide an equality after a square root and  *)
 (* a division); a residual that is exactly zero is <= any tolerance.       *)
@@ -281,14 +283,25 @@ GenB(fam, sz, s) ==
                         ELSE 0)
            IN  TLCEval([r \in 1..n |-> FitRow(raw[r], 2 ^ (db - 1))])
 
+\* QUIET instances (seeds >= 100): the input x and the constant term reach ONE discipline only (the
+\* driver), every other discipline is a pure function of the couplings, and the start is y0 = 0 - the ring /
+\* chain pattern of a design variable entering one discipline.  The first execution of a non-driver
+\* reproduces its start value although the system is not converged: the first residual has sub-residuals
+\* and components that are EXACTLY ZERO (the scalings initial_subresidual_norm / initial_residual_component
+\* then keep the scale 1 for them, see RefSq), and the change propagates one discipline per sweep.
+Quiet(s) == s >= 100
+Driver(s, nd) == (s % nd) + 1
 Gen(fam, sz, s) ==
   LET n == OffTo(sz, Len(sz))
+      nd == Len(sz)
+      drv(r) == ~Quiet(s) \/ r \in (OffTo(sz, Driver(s, nd) - 1) + 1)..OffTo(sz, Driver(s, nd))
+      c0(r) == Rnd(s, r, 41, 7) - 3
   IN  [fam |-> fam, sz |-> sz, db |-> IF fam = "nil" THEN 0 ELSE 2 + (s % 2),
        B  |-> GenB(fam, sz, s),
-       c  |-> [r \in 1..n |-> Rnd(s, r, 41, 7) - 3],
-       xc |-> [r \in 1..n |-> Rnd(s, r, 43, 5) - 2],
+       c  |-> [r \in 1..n |-> IF drv(r) THEN (IF Quiet(s) /\ c0(r) = 0 THEN 2 ELSE c0(r)) ELSE 0],
+       xc |-> [r \in 1..n |-> IF drv(r) THEN Rnd(s, r, 43, 5) - 2 ELSE 0],
        xs |-> <<Rnd(s, 1, 47, 7) - 3, Rnd(s, 2, 53, 7) - 3>>,
-       y0 |-> [r \in 1..n |-> IF s % 3 = 0 THEN Rnd(s, r, 59, 5) - 2 ELSE 0]]
+       y0 |-> [r \in 1..n |-> IF s % 3 = 0 /\ ~Quiet(s) THEN Rnd(s, r, 59, 5) - 2 ELSE 0]]
 
 ----------------------------------------------------------------------------
 (* the disciplines and the exact solution                                   *)
@@ -413,8 +426,39 @@ MaxMaxIt(I, a, w, warm) ==
   LET ok == {m \in 0..8 : Bits(I, CfgOf(a, w, m, warm)) <= ExpLimit(CfgOf(a, w, m, warm))}
   IN  IF ok = {} THEN -1 ELSE CHOOSE m \in ok : \A n \in ok : n <= m
 Envelope(I) == [a \in {"J", "GS", "CJ", "CGS", "SJ", "SGS"} |-> [w \in 1..3 |-> <<MaxMaxIt(I, a, w, FALSE), MaxMaxIt(I, a, w, TRUE)>>]]
+
+\* ---- stalled starts: the first residual of a one-stage object (Jacobi: the first sweep minus y0;
+\* Gauss-Seidel in the order o: the second sweep minus the first) vanishes EXACTLY on some resolved variable
+\* but not on all of them - the MDA is not converged, and the reference of the per-variable / per-component
+\* scalings is zero there
+JSweepFrom(I, n, src) == TLCEval([c \in 1..Dim(I) |-> OutComp(I, n, c, src)])
+RECURSIVE GSSweepTo(_, _, _, _, _)
+GSSweepTo(I, n, o, src, j) ==
+  IF j = 0 THEN src
+  ELSE LET prev == TLCEval(GSSweepTo(I, n, o, src, j - 1))
+       IN  TLCEval([c \in 1..Dim(I) |-> IF c \in Comps(I, o[j]) THEN OutComp(I, n, c, prev) ELSE prev[c]])
+FirstRes(I, a, o) ==
+  LET s == DVec(I.y0)
+  IN  IF a = "J" THEN LET z == JSweepFrom(I, 1, s) IN [c \in 1..Dim(I) |-> DSub(z[c], s[c])]
+      ELSE LET z == GSSweepTo(I, 1, o, s, ND(I))
+               u == GSSweepTo(I, 1, o, z, ND(I))
+           IN  [c \in 1..Dim(I) |-> DSub(u[c], z[c])]
+\* r: a residual, vs: the resolved variables as sequences of components (st.rvar)
+ZeroOn(r, cs) == \A j \in 1..Len(cs) : r[cs[j]] = DZero
+PartlyZero(r, vs) == (\E j \in 1..Len(vs) : ZeroOn(r, vs[j])) /\ (\E j \in 1..Len(vs) : ~ZeroOn(r, vs[j]))
+StalledStart(I, a, o) ==
+  LET rv == ResolvedIn(I, Discs(I), a, o)
+  IN  PartlyZero(FirstRes(I, a, o), [j \in 1..Cardinality(rv) |-> CompSeq(I, SeqOfSet(rv)[j])])
+StalledStarts(I) == {p \in {"J", "GS"} \X Perms(ND(I)) : StalledStart(I, p[1], p[2])}
+
+\* ---- the declared TYPE of the coupling data is not part of the system: disciplines that declare their
+\* couplings as arrays of integers exchange the same values, wherever every value of the execution IS an
+\* integer - the nilpotent family (integer B, c, xc, x, y0) without relaxation (w = 1: a factor k/2 halves)
+\* and without acceleration; Integral (below) is the invariant that justifies it
+IntegralOrbit(I, C) == I.fam = "nil" /\ C.w = 2
+
 ASSUME Emit => \A I \in Instances : PrintT(<<"CASE", I, Envelope(I), Cardinality(Groups(I)), DelayedWeakOrders(I),
-                                                 \A i \in Discs(I) : IsMDAGrp(I, Grp(I, i))>>)
+                                                 \A i \in Discs(I) : IsMDAGrp(I, Grp(I, i)), StalledStarts(I)>>)
 
 \* base_mda.py _prepare_warm_start: the last outputs are loaded for BaseMDA._input_couplings only -
 \* Jacobi: its resolved variables; Gauss-Seidel, MDAChain and its inner MDAs: the strong couplings;
@@ -598,6 +642,14 @@ SeqHandOver ==
 
 \* evaluated once per instance (a property of the instance, not of the state)
 ChainEqualsMonolithic == (pc = "done" /\ run = 1) => ChainEqualsMonolithicOn(inst)
+
+\* every value of an execution on an integral orbit is an integer (what lets the conformance check declare
+\* the couplings as integers there)
+Integral == IntegralOrbit(inst, cfg) => \A c \in 1..Dim(inst) : y[c][2] = 0 /\ bef[c][2] = 0 /\ res[c][2] = 0
+
+\* a state in which the stop test runs against a scaling reference (the first residual ever computed by the
+\* stage) that vanishes on some resolved variable and not on all: a witness for the conformance check
+StalledRef == pc = "test" /\ St.mda /\ r0[stage] # << >> /\ PartlyZero(r0[stage][1], St.rvar)
 
 TypeOK ==
   /\ pc \in {"pre", "sweep", "test", "single", "done"}
